@@ -302,7 +302,7 @@ pub fn check(tier: &str) -> i32 {
         run: Box::new(|i, tr| run_responder(i / 2 == 1, i % 2 == 0, tr)),
     };
     rep.run_part(&resp, Duration::from_secs(300));
-    let ttls: Vec<u32> = if thorough { (2..=40).collect() } else { (2..=20).collect() };
+    let ttls: Vec<u32> = if thorough { (2..=120).collect() } else { (2..=20).collect() };
     let nt = ttls.len() as u64;
     let qr = FnPart {
         name: "S-querier".into(),
@@ -310,7 +310,7 @@ pub fn check(tier: &str) -> i32 {
         n: nt * 4,
         describe: Box::new(move |i| format!("ttl={} two_intf={} late={}", ttls[(i % nt) as usize], (i / nt) % 2 == 1, i / nt / 2 == 1)),
         run: Box::new({
-            let ttls: Vec<u32> = if thorough { (2..=40).collect() } else { (2..=20).collect() };
+            let ttls: Vec<u32> = if thorough { (2..=120).collect() } else { (2..=20).collect() };
             move |i, tr| run_querier(ttls[(i % nt) as usize], (i / nt) % 2 == 1, i / nt / 2 == 1, tr)
         }),
     };
